@@ -78,7 +78,13 @@ class Family:
         if c == 'F':
             if isinstance(v, bool):
                 return True
-            return isinstance(v, (int, float))
+            if isinstance(v, int):
+                try:
+                    float(v)
+                except OverflowError:
+                    return False      # no double (hence no float) for it
+                return True
+            return isinstance(v, float)
         if c == 's':
             return isinstance(v, bytes) and len(v) == 6
         if c == 'O':
@@ -88,7 +94,10 @@ class Family:
     def norm_val(self, v):
         """Normal form a stored value reads back as."""
         if self.vc == 'F':
-            return f32(float(v))
+            try:
+                return f32(float(v))
+            except OverflowError:
+                return float('inf') if v > 0 else float('-inf')
         if self.vc in INT_RANGES:
             return int(v)
         return v
